@@ -45,7 +45,7 @@ fn services(persister: Arc<MemPersister>) -> NodeServices {
 }
 
 fn new_node(seed: [u8; 32], style: KeyDerivationStyle, network: Network) -> KNode {
-    let persister: Arc<MemPersister> = Arc::new(KVVPersister(MemoryKVVStore::new([7u8; 16]), JsonFormat));
+    let persister: Arc<MemPersister> = Arc::new(KVVPersister(HStore::new(false), JsonFormat));
     let mut config = NodeConfig::new(network);
     config.key_derivation_style = style;
     let node = Arc::new(Node::new(config, &seed, vec![], services(persister.clone())));
